@@ -37,14 +37,20 @@ SPEC = {
              "consumers and >= 20000 ammo. TestHTTPSamples: rapid-generated ammo (uri / uripost / raw / http-json written one object per line, as pretty-printed objects, "
              "or as one JSON array - the six layouts equally likely; 1-8 entries with 0-5 path elements, tagged or not) x provider streaming or "
              "with preload x bounds {passes 1-3, a limit of 1..3n with the default unlimited passes, both; at most 24 shots} x scripted "
-             "target answers (any status 200-599; connection reset, response-header timeout, body shorter than Content-Length; target "
-             "refusing connections) x auto-tag {enabled, uri-elements 1-3, no-tag-only} x 1-8 instances; real http gun, real provider, real engine "
+             "target answers (any status 200-599; connection reset, response-header timeout, body shorter than Content-Length, chunked body "
+             "that ends inside a chunk - the last two fail after status line and headers have arrived; target "
+             "refusing connections) x auto-tag {enabled, uri-elements 1-3, no-tag-only} x 1-8 instances x what the run logs on the side: "
+             "the engine's (and so every bound gun's) logger drops everything / takes info / takes debug messages (`log: level: debug`: "
+             "the gun logs every request and response with its body) x the gun's `answlog` not enabled / enabled with filter all, "
+             "warning, error (a real file) - the codes of a sample are the same at every log level; real http gun, real provider, real engine "
              "instances (which Release every ammo after its shot), real phout aggregator with ids, pool built by config.DecodeAndValidate; "
              "the k-th ammo is entry k mod n, so the multiset of (tag, proto code, net code == 0) parsed from the phout file is compared with "
              "the model over all min(limit, passes x n) shots - an entry shot on a later pass must carry its tag and reach the target under "
              "its own path again (the target answers by path; anything else is a 599) - and ids must be pairwise distinct. Classes "
              "layout_<layout>_{stream,preload}, reshot_<layout>_{stream,preload} (more shots than entries: entries are shot again after "
-             "their ammo was released), reshot_by_passes / reshot_by_limit_with_unlimited_passes, third_pass_entered. TestGRPCCodes: every case "
+             "their ammo was released), reshot_by_passes / reshot_by_limit_with_unlimited_passes, third_pass_entered, log_level_*, answlog_enabled, "
+             "body_cut_after_headers_{debug_log, info_log, answ_logged, debug_log_and_answ_logged, nothing_logged}[_short_body|_short_chunked] "
+             "(once per case: an entry whose body is cut was shot at that log level / was dumped by the answ log). TestGRPCCodes: every case "
              "enumerates all gRPC status codes 0..16 (plus generated out-of-range values) returned by a recording TargetService; the "
              "sample's proto code must equal the table in docs/eng/grpc-generator.md as transcribed into the harness. Non-trivial = a "
              "non-2xx status, a failure kind, auto-tag on, or >= 2 instances (HTTP); every gRPC case; distinct = hash of the case."),
@@ -57,7 +63,15 @@ SPEC = {
                          'TestHTTPSamples/reshot_by_limit_with_unlimited_passes_jsonline_array_stream'],
     "floors": {"TestHTTPSamples/status_3xx": 0.1, "TestHTTPSamples/status_4xx": 0.1, "TestHTTPSamples/status_5xx": 0.1,
                "TestHTTPSamples/fail_reset": 0.1, "TestHTTPSamples/fail_timeout": 0.1, "TestHTTPSamples/fail_short_body": 0.1,
-               "TestHTTPSamples/fail_refused": 0.04, "TestHTTPSamples/auto_tag": 0.24, "TestHTTPSamples/auto_tag_appended": 0.1,
+               "TestHTTPSamples/fail_refused": 0.04, "TestHTTPSamples/fail_short_chunked": 0.1,
+               "TestHTTPSamples/log_level_debug": 0.2, "TestHTTPSamples/log_level_info": 0.15, "TestHTTPSamples/log_level_none": 0.15,
+               "TestHTTPSamples/answlog_enabled": 0.28, "TestHTTPSamples/answered_with_debug_log": 0.15,
+               "TestHTTPSamples/answered_and_answ_logged": 0.15,
+               "TestHTTPSamples/body_cut_after_headers_debug_log": 0.05, "TestHTTPSamples/body_cut_after_headers_debug_log_short_body": 0.022,
+               "TestHTTPSamples/body_cut_after_headers_debug_log_short_chunked": 0.025, "TestHTTPSamples/body_cut_after_headers_info_log": 0.03,
+               "TestHTTPSamples/body_cut_after_headers_answ_logged": 0.04, "TestHTTPSamples/body_cut_after_headers_answ_logged_short_body": 0.018,
+               "TestHTTPSamples/body_cut_after_headers_answ_logged_short_chunked": 0.018,
+               "TestHTTPSamples/body_cut_after_headers_debug_log_and_answ_logged": 0.01, "TestHTTPSamples/body_cut_after_headers_nothing_logged": 0.02, "TestHTTPSamples/auto_tag": 0.24, "TestHTTPSamples/auto_tag_appended": 0.1,
                "TestHTTPSamples/instances_ge_2": 0.5, "TestHTTPSamples/uri_without_path": 0.4,
                "TestHTTPSamples/auto_tag_of_uri_without_path_untagged": 0.15, "TestHTTPSamples/uri_without_path_abs": 0.1,
                "TestHTTPSamples/uri_without_path_query": 0.1, "TestHTTPSamples/uri_without_path_abs_query": 0.1,
@@ -79,7 +93,8 @@ SPEC = {
     "manifest": {
         "technique": "model-based property testing (rapid) through the real guns and the real phout aggregator against scripted recording targets; documentation-transcribed table oracle for gRPC codes",
         "text": ("Samples are read where users read them (phout lines). HTTP: exactly one sample per fired request; proto code = status "
-                 "received else 0; net code 0 iff a response was completely received; tag = ammo tag / auto-tag of the first n path "
+                 "received else 0; net code 0 iff a response was completely received (a body cut short after the headers - by length or inside "
+                 "a chunk - is a failed exchange: status as proto code, non-zero net code), whatever the log level and the answ log setting; tag = ammo tag / auto-tag of the first n path "
                  "elements (appended with '|' when the ammo is tagged and no-tag-only is off) / __EMPTY__ (also when auto-tag is on and the URI has no path to take elements from); ids unique across instances; "
                  "all of it for every ammo layout (uri, uripost, raw, http/json as lines / pretty objects / one array), streamed or preloaded, also for entries shot "
                  "again on a second and third pass (by `passes` or by a limit above the file's length) after the engine released their ammo. "
